@@ -77,6 +77,22 @@ var specs = map[string]*spec{
 	"C08": {ID: "C08", Profiles: []string{"election", "durability"}, Engine: "cluster", Accept: []string{"C08"}, Level: "exploration",
 		Rule: "one run = one seeded cluster simulation; per node across incarnations: terms in replies/status/reloads never decrease, one candidate per term (grants and persisted votes), votes only for up-to-date logs, prevotes inert. Non-trivial: >= 1 real vote granted and >= 1 crash. Distinct: distinct event-log hashes among those.",
 		Probes: []string{"vote-granted", "prevote-granted"}},
+	"C09": {ID: "C09", Profiles: []string{"membership"}, Engine: "cluster", Accept: []string{"C09"}, Level: "exploration",
+		Rule: "one run = one seeded cluster simulation starting from 1-4 voters with a membership client issuing add-non-voter / add-voter / promote / remove (incl. the leader) back-to-back, to any node, without waiting, under partitions and crashes. Non-trivial: >= 2 configuration entries committed and >= 1 fault fired. Distinct: distinct event-log hashes among those.",
+		Probes: []string{"config-entry-committed", "commit-quorum-checked", "membership-change-applied-by-its-leader", "leader-elected"}},
+	"C12": {ID: "C12", Profiles: []string{"disk-C12"}, Engine: "disk", Accept: []string{"C12"}, Level: "fault_enumeration",
+		Rule: "one program = a seeded sequence (1-12 calls, longer in thorough) of append / append-batch / truncate / compact / discard / close+reopen on the repository's file-backed log over the simulated disk. For every program the crash points are enumerated completely: before every storage operation, after the last, and inside every write (quick: header bytes + sampled offsets, thorough: every byte). evaluations = crash points executed (each one a fresh execution of the program, a crash, a reopen with the repository's code and a comparison with the model through the public API; a third of them continue with more operations and a second crash). distinct_nontrivial = distinct disk images at the crash instant, per program."},
+	"C13": {ID: "C13", Profiles: []string{"disk-C13"}, Engine: "disk", Accept: []string{"C13"}, Level: "fault_enumeration",
+		Rule: "one program = a seeded sequence of SetState / NewSnapshotFile + writes (0 B to beyond one transfer chunk) + Close|Discard / SnapshotFile / reopen (up to 40 snapshots) on the repository's term/vote and snapshot storages over the simulated disk. Crash points as for C12. After every crash: storages and NewRaft must be constructible at the first attempt, State() = last returned or in-flight value, SnapshotFile() = most recent successfully closed snapshot, complete. evaluations = crash points executed; distinct_nontrivial = distinct disk images at the crash instant, per program."},
+	"C16": {ID: "C16", Profiles: []string{"sticky"}, Engine: "cluster", Accept: []string{"C16"}, Level: "exploration",
+		Rule: "one run = one seeded simulation: wait for a stable leader, fix a prompt majority around it, then isolate (symmetric / one-directional, any duration), rejoin, crash/restart, stall and speed up the clocks of the remaining nodes for 60-240 election timeouts. Non-trivial: >= 1 vote request from the tormented minority was handled by a majority node during the window. Distinct: distinct event-log hashes among those.",
+		Probes: []string{"window-established", "window-rejoins", "window-minority-restarts", "window-vote-requests-reached-majority", "window-real-vote-requests-reached-majority"}},
+	"C17": {ID: "C17", Profiles: []string{"lease"}, Engine: "cluster", Accept: []string{"C17"}, Level: "exploration",
+		Rule: "one run = one seeded cluster simulation with lease reads at every node; lease L, message delay bound D and election timeout E drawn with L + D < E, clocks at rate 1 without steps, no stalls; partitions and leader changes. Non-trivial: >= 1 successful lease read and >= 2 leaders elected. Distinct: distinct event-log hashes among those.",
+		Probes: []string{"nonvoter-added", "fault-aimed-at-leader", "lease-read-checked-against-voter-reply"}},
+	"C18": {ID: "C18", Profiles: []string{"api", "membership"}, Engine: "cluster", Accept: []string{"C18"}, Level: "exploration",
+		Rule: "one run = one seeded cluster simulation with an API fuzzer task per node (status/configuration rendering, submissions of every and of invalid operation types, empty payloads, zero/huge timeouts, membership requests with existing/unknown/own ids, Bootstrap again, Start/Restart on a running node, Stop+Restart, Stop+Start, Stop twice) in whatever state the node is in; the membership profile contributes the membership-future obligation. Non-trivial: >= 10 API calls were made. Distinct: distinct event-log hashes among those.",
+		Probes: []string{"api-calls", "api-in-state-0", "api-in-state-1", "api-in-state-2", "api-in-state-3", "api-in-state-4", "graceful-restart", "membership-change-applied-by-its-leader"}},
 	"C10": {ID: "C10", Profiles: []string{"snapshot"}, Engine: "cluster", Accept: []string{"C10"}, Level: "exploration",
 		Rule: "one run = one seeded cluster simulation with snapshots on, slow state machine, lagging followers. Non-trivial: >= 1 snapshot became visible. Distinct: distinct event-log hashes among those.",
 		Probes: []string{"snapshot-visible", "snapshot-installed", "snapshot-during-apply", "snapshot-larger-than-chunk", "restore-during-apply"}},
@@ -93,7 +109,7 @@ var specs = map[string]*spec{
 func init() {
 	for _, s := range specs {
 		if s.QuickS == 0 {
-			s.QuickS = 45
+			s.QuickS = 30
 		}
 		if s.ThoroughS == 0 {
 			s.ThoroughS = 1200
@@ -168,6 +184,9 @@ func assemble(mode string) *build {
 }
 
 func (b *build) cleanup() {
+	if os.Getenv("VERIF_KEEP") != "" {
+		return
+	}
 	if b != nil && b.dir != "" {
 		os.RemoveAll(b.dir)
 	}
@@ -318,13 +337,15 @@ func nontrivial(sp *spec, r *runResult) bool {
 	case "C09":
 		return p["config-entry-committed"] >= 2 && r.Faults >= 1
 	case "C18":
-		return p["api-calls"] >= 10
+		return p["api-calls"] >= 10 || p["membership-change-applied-by-its-leader"] >= 1
+	case "C12", "C13":
+		return p["crash-points"] >= 1
 	}
 	return r.OpsApplied >= 1 && r.Faults >= 1
 }
 
 // runBatch runs workers until the wall budget is used up.
-func runBatch(b *build, sp *spec, baseSeed uint64, budget float64, workers int, agg *aggregate) {
+func runBatch(b *build, sp *spec, tier string, baseSeed uint64, budget float64, workers int, agg *aggregate) {
 	var wg sync.WaitGroup
 	nprof := len(sp.Profiles)
 	for w := 0; w < workers; w++ {
@@ -334,8 +355,8 @@ func runBatch(b *build, sp *spec, baseSeed uint64, budget float64, workers int, 
 			profile := sp.Profiles[w%nprof]
 			args := []string{"-profile", profile, "-seed", strconv.FormatUint(baseSeed+uint64(w), 10), "-stride", strconv.Itoa(workers),
 				"-n", "100000000", "-budget", fmt.Sprintf("%.1f", budget), "-states"}
-			if sp.Engine == "disk" {
-				args = append(args, "-disk", sp.ID)
+			if tier == "thorough" {
+				args = append(args, "-thorough")
 			}
 			cmd := exec.Command(b.worker, args...)
 			cmd.Stderr = os.Stderr
@@ -601,6 +622,7 @@ func minimise(b *build, prop string, f found, maxTrials int, maxWall time.Durati
 	os.WriteFile(tmp, data, 0o644)
 	if r, err := runWorkerJSON(b, "-replay", tmp, "-trace"); err == nil {
 		if r.Hash != best.Hash {
+			os.WriteFile("/tmp/nondet-trial.json", data, 0o644)
 			infra("replay of the minimised run gave hash %s, expected %s (nondeterminism)", r.Hash, best.Hash)
 		}
 		// Keep the events leading to the violation.
@@ -654,9 +676,6 @@ func replayCmd(path string) int {
 	b := assemble("strict")
 	defer b.cleanup()
 	args := []string{"-replay", path}
-	if sp := specs[rf.Property]; sp != nil && sp.Engine == "disk" {
-		args = append(args, "-disk", rf.Property)
-	}
 	r, err := runWorkerJSON(b, args...)
 	if err != nil {
 		infra("%v", err)
@@ -688,9 +707,13 @@ func replayCmd(path string) int {
 // ---------------------------------------------------------------- evidence
 
 func writeEvidence(sp *spec, tier string, seed uint64, agg *aggregate, wall float64, nViol int, known []string, extra map[string]interface{}) {
+	evaluations, distinct := agg.runs, len(agg.nontrivial)
+	if sp.Engine == "disk" {
+		evaluations, distinct = int(agg.probes["crash-points"]), int(agg.probes["distinct-images"])
+	}
 	cov := map[string]interface{}{
-		"evaluations":         agg.runs,
-		"distinct_nontrivial": len(agg.nontrivial),
+		"evaluations":         evaluations,
+		"distinct_nontrivial": distinct,
 		"rule":                sp.Rule,
 		"samples":             agg.samples,
 		"distinct_event_log_hashes": len(agg.allHashes),
@@ -831,7 +854,7 @@ func main() {
 	fmt.Printf("build: %.1fs\n", time.Since(t0).Seconds())
 	baseSeed := propertySeed(sp.ID, envSeed)
 	agg := newAggregate()
-	runBatch(b, sp, baseSeed, budget, workers, agg)
+	runBatch(b, sp, tier, baseSeed, budget, workers, agg)
 	if agg.infra != "" {
 		b.cleanup()
 		infra("%s", agg.infra)
